@@ -1,7 +1,7 @@
 (* Extraction of the C15 model (ExtrOcamlBasic only; Z/positive/nat stay inductive). *)
-From LV Require Import Cursor.CursorDefs Cursor.CursorSession.
+From LV Require Import Cursor.CursorDefs Cursor.CursorSession Cursor.CursorReqClip.
 Require Import ExtrOcamlBasic.
 Extraction Language OCaml.
 Extraction "../build/ocaml/C15/model.ml"
   show hide make_rich_from_x make_mask_for_xcursor make_x_from_rich shape_msg pos_msg
-  new_client set_cursor set_encodings ptr_event fur fill send_update pump pump_h pump_rounds use_shared default_cursor new_framebuffer init_format.
+  new_client set_cursor set_encodings ptr_event fur fill send_update pump pump_h pump_rounds pump_rounds_r use_shared default_cursor new_framebuffer init_format.
